@@ -737,6 +737,19 @@ pub fn shrink(case: &Case) -> Vec<Case> {
             size /= 2;
         }
     }
+    // sliding windows: a sub-expression in the middle of a line is rarely chunk-aligned
+    if chars.len() <= 300 {
+        for size in [16usize, 12, 10, 8, 6, 5, 4, 3, 2] {
+            if size >= chars.len() {
+                continue;
+            }
+            for st in 0..=(chars.len() - size) {
+                let mut v: Vec<char> = chars[..st].to_vec();
+                v.extend_from_slice(&chars[st + size..]);
+                out.push(mk(v.into_iter().collect(), case.mode));
+            }
+        }
+    }
     // canonicalise: CRLF/CR -> LF, non-ASCII -> 'a', drop BOM, comments
     if case.source.contains('\r') {
         out.push(mk(case.source.replace("\r\n", "\n").replace('\r', "\n"), case.mode));
